@@ -287,7 +287,7 @@ def start_point(dev, c):
   return (s0 if s0 is not None else dev.project(np.zeros(dev.shape))).flatten()
 
 
-def judge(dev, c, r):
+def judge(dev, c, r, skip_dependent=True):
   """certificate of a returned flow: dict with resid, gap (None when not judged), gtol"""
   x = np.asarray(r[1], dtype=float)
   desc, lin, feas = problem_of(dev, c)
@@ -299,7 +299,7 @@ def judge(dev, c, r):
   if not lin:
     out['why_no_gap'] = 'non-affine constraint'
     return out
-  if cc.structurally_dependent(desc):
+  if skip_dependent and cc.structurally_dependent(desc):
     out['why_no_gap'] = 'dependent constraint rows'
     return out
   x0 = start_point(dev, c)
@@ -454,7 +454,7 @@ def oracle_fault(c):
   return None
 
 
-def oracle_solve(c):
+def oracle_solve(c, skip_dependent=True):
   dev = tg.build_tree(c['t'])
   r = run_solve(dev, c)
   desc, lin, feas = problem_of(dev, c)
@@ -467,7 +467,7 @@ def oracle_solve(c):
     return 'returned flow has shape %s, device shape %s' % (x.shape, dev.shape)
   if lin and not feas:
     return 'the model is infeasible (LP) but solve returned a flow (constraint violation %.3g)' % cc.nonlinear_residual(x.reshape(-1), dev)
-  j = judge(dev, c, r)
+  j = judge(dev, c, r, skip_dependent)
   if j['resid'] > FEAS_TOL:
     return 'returned flow violates bounds/constraints by %.3g' % j['resid']
   if j['gap'] is not None and j['gap'] > j['gtol']:
@@ -500,10 +500,18 @@ def finding_matches(f, c):
 
 
 def witness_fails(f):
+  """replay the stored witness with the un-filtered oracle (the filter is what keeps the finding's region out of the run)"""
   w = f.get('witness')
   if not w:
     return True
-  return oracle(case_from_json(w)) is not None
+  w = w.get('C05', w) if isinstance(w, dict) and 'kind' not in w else w
+  try:
+    c = case_from_json(w)
+    if c['kind'] == 'fault':
+      return oracle(c) is not None
+    return oracle_solve(c, skip_dependent=False) is not None
+  except Exception:
+    return True
 
 
 def search(rng, budget, seeds, findings):
